@@ -190,6 +190,21 @@ class Interp:
             return
         if k == "RefPat":
             return self.bind(pat["pat"], val, env)
+        if k == "TuplePat" and isinstance(val, Ref) and isinstance(self.deref(val), Tup) and len(self.deref(val).items) == len(pat["pats"]):
+            # projection references into a tuple behind a mutable reference
+            for i, p_ in enumerate(pat["pats"]):
+
+                def g(i=i):
+                    return self.deref(val.get()).items[i]
+
+                def s_(nv, i=i):
+                    cur = self.deref(val.get())
+                    items = list(cur.items)
+                    items[i] = nv
+                    val.set(Tup(items))
+
+                self.bind(p_, Ref(g, s_, f"{val.desc}.{i}", root_id=val.root_id), env)
+            return
         if k == "TuplePat":
             v = self.deref(val)
             if isinstance(v, Ite) and isinstance(v.a, Tup) and isinstance(v.b, Tup):
@@ -1338,6 +1353,16 @@ def subst_val(v, m):
         return Vec([Seg(sp.sympify(s.n).xreplace(m), (lambda jj, s=s: subst_val(s.f(jj), m))) for s in v.segs], v.kind)
     if isinstance(v, Bytes):
         return Bytes([(k, subst_val(x, m) if isinstance(x, Val) else x) for k, x in v.parts])
+    if isinstance(v, Opaque) and v.info:
+        info = {}
+        for k, x in v.info.items():
+            if isinstance(x, sp.Basic):
+                info[k] = x.xreplace(m)
+            elif isinstance(x, Val):
+                info[k] = subst_val(x, m)
+            else:
+                info[k] = x
+        return Opaque(v.what, **info)
     return v
 
 
